@@ -23,7 +23,7 @@ ASSUMPTIONS = ['oracle limited to domains of <= 256 cells; its answer is used on
                'RDA / IG are driven with projections of >= 2 cells (scipy eigsh refuses a 1x1 operator)',
                'iteration budgets capped at 20000; a solver slower than that on some input would be reported as a violation']
 PLAN = {
-    'quick': dict(cases=150, budget_s=90, case_timeout=600, min_cases=40, shards=16),
+    'quick': dict(cases=150, budget_s=150, case_timeout=600, min_cases=25, shards=16),
     'thorough': dict(cases=1800, budget_s=1200, case_timeout=1200, min_cases=300),
 }
 TAU = 0.03
